@@ -1,18 +1,171 @@
-// Stub of github.com/libp2p/go-libp2p/p2p/transport/quic used through `go build -overlay`.
+// Stand-in for github.com/libp2p/go-libp2p/p2p/transport/quic used through `go build -overlay`.
 // quic-go@v0.28.1 refuses to compile with the installed Go toolchain; the guardian code only
-// references NewTransport as a libp2p option, which no verification harness ever dials.
+// references NewTransport as a libp2p option.
+//
+// The stand-in is a *simulated network*, not a QUIC implementation: it accepts the same
+// /ip4|ip6/<a>/udp/<p>/quic multiaddrs as the real transport, but carries every connection over a
+// loopback TCP socket on the same port number, secured with libp2p-TLS and multiplexed with yamux through
+// libp2p's own upgrader. Everything above the transport (swarm, identify, DHT, GossipSub, and the whole of
+// p2p.Run) is the unmodified code, which is what the P2PLoop conformance harness needs.
 package libp2pquic
 
 import (
+	"context"
 	"errors"
+	"fmt"
+	"net"
 
 	"github.com/libp2p/go-libp2p/core/connmgr"
 	ic "github.com/libp2p/go-libp2p/core/crypto"
 	"github.com/libp2p/go-libp2p/core/network"
+	"github.com/libp2p/go-libp2p/core/peer"
 	"github.com/libp2p/go-libp2p/core/pnet"
 	tpt "github.com/libp2p/go-libp2p/core/transport"
+	msmux "github.com/libp2p/go-libp2p/p2p/muxer/muxer-multistream"
+	"github.com/libp2p/go-libp2p/p2p/muxer/yamux"
+	csms "github.com/libp2p/go-libp2p/p2p/net/conn-security-multistream"
+	tptu "github.com/libp2p/go-libp2p/p2p/net/upgrader"
+	libp2ptls "github.com/libp2p/go-libp2p/p2p/security/tls"
+	ma "github.com/multiformats/go-multiaddr"
+	manet "github.com/multiformats/go-multiaddr/net"
 )
 
-func NewTransport(key ic.PrivKey, psk pnet.PSK, gater connmgr.ConnectionGater, rcmgr network.ResourceManager) (tpt.Transport, error) {
-	return nil, errors.New("quic transport stubbed out for offline verification builds")
+type simTransport struct {
+	up    tpt.Upgrader
+	rcmgr network.ResourceManager
 }
+
+func NewTransport(key ic.PrivKey, psk pnet.PSK, gater connmgr.ConnectionGater, rcmgr network.ResourceManager) (tpt.Transport, error) {
+	if len(psk) > 0 {
+		return nil, errors.New("simulated quic transport: private networks are not supported")
+	}
+	if rcmgr == nil {
+		rcmgr = network.NullResourceManager
+	}
+	tlsT, err := libp2ptls.New(key)
+	if err != nil {
+		return nil, err
+	}
+	sm := new(csms.SSMuxer)
+	sm.AddTransport(libp2ptls.ID, tlsT)
+	mm := msmux.NewBlankTransport()
+	mm.AddTransport("/yamux/1.0.0", yamux.DefaultTransport)
+	opts := []tptu.Option{tptu.WithResourceManager(rcmgr)}
+	if gater != nil {
+		opts = append(opts, tptu.WithConnectionGater(gater))
+	}
+	up, err := tptu.New(sm, mm, opts...)
+	if err != nil {
+		return nil, err
+	}
+	return &simTransport{up: up, rcmgr: rcmgr}, nil
+}
+
+// quicParts splits /ip4|ip6/<a>/udp/<p>/quic into network ("tcp4"/"tcp6") and host:port of the carrying socket.
+func quicParts(a ma.Multiaddr) (string, string, error) {
+	var ip, port, netw string
+	quic := false
+	ma.ForEach(a, func(c ma.Component) bool {
+		switch c.Protocol().Code {
+		case ma.P_IP4:
+			ip, netw = c.Value(), "tcp4"
+		case ma.P_IP6:
+			ip, netw = c.Value(), "tcp6"
+		case ma.P_UDP:
+			port = c.Value()
+		case ma.P_QUIC:
+			quic = true
+		}
+		return true
+	})
+	if !quic || ip == "" || port == "" {
+		return "", "", fmt.Errorf("simulated quic transport: not a quic address: %s", a)
+	}
+	return netw, net.JoinHostPort(ip, port), nil
+}
+
+func toQuicAddr(a net.Addr) ma.Multiaddr {
+	t, ok := a.(*net.TCPAddr)
+	if !ok {
+		return nil
+	}
+	fam := "ip4"
+	ip := t.IP
+	if ip4 := ip.To4(); ip4 != nil {
+		ip = ip4
+	} else {
+		fam = "ip6"
+	}
+	m, _ := ma.NewMultiaddr(fmt.Sprintf("/%s/%s/udp/%d/quic", fam, ip.String(), t.Port))
+	return m
+}
+
+type simConn struct {
+	net.Conn
+	l, r ma.Multiaddr
+}
+
+func (c *simConn) LocalMultiaddr() ma.Multiaddr  { return c.l }
+func (c *simConn) RemoteMultiaddr() ma.Multiaddr { return c.r }
+
+type simListener struct {
+	net.Listener
+	addr ma.Multiaddr
+}
+
+func (l *simListener) Accept() (manet.Conn, error) {
+	c, err := l.Listener.Accept()
+	if err != nil {
+		return nil, err
+	}
+	return &simConn{Conn: c, l: l.addr, r: toQuicAddr(c.RemoteAddr())}, nil
+}
+func (l *simListener) Multiaddr() ma.Multiaddr { return l.addr }
+
+func (t *simTransport) Dial(ctx context.Context, raddr ma.Multiaddr, p peer.ID) (tpt.CapableConn, error) {
+	netw, hp, err := quicParts(raddr)
+	if err != nil {
+		return nil, err
+	}
+	scope, err := t.rcmgr.OpenConnection(network.DirOutbound, true, raddr)
+	if err != nil {
+		return nil, err
+	}
+	if err := scope.SetPeer(p); err != nil {
+		scope.Done()
+		return nil, err
+	}
+	var d net.Dialer
+	c, err := d.DialContext(ctx, netw, hp)
+	if err != nil {
+		scope.Done()
+		return nil, err
+	}
+	return t.up.Upgrade(ctx, t, &simConn{Conn: c, l: toQuicAddr(c.LocalAddr()), r: raddr}, network.DirOutbound, p, scope)
+}
+
+func (t *simTransport) CanDial(a ma.Multiaddr) bool {
+	_, _, err := quicParts(a)
+	return err == nil
+}
+
+func (t *simTransport) Listen(laddr ma.Multiaddr) (tpt.Listener, error) {
+	netw, hp, err := quicParts(laddr)
+	if err != nil {
+		return nil, err
+	}
+	l, err := net.Listen(netw, hp)
+	if err != nil {
+		return nil, err
+	}
+	addr := toQuicAddr(l.Addr())
+	if addr == nil {
+		l.Close()
+		return nil, errors.New("simulated quic transport: unexpected listener address")
+	}
+	return t.up.UpgradeListener(t, &simListener{Listener: l, addr: addr}), nil
+}
+
+func (t *simTransport) Protocols() []int { return []int{ma.P_QUIC} }
+func (t *simTransport) Proxy() bool      { return false }
+func (t *simTransport) String() string   { return "simulated-quic-over-loopback-tcp" }
